@@ -19,6 +19,7 @@ Definition k_scheme : bytes := [58; 115; 99; 104; 101; 109; 101].
 Definition k_authority : bytes := [58; 97; 117; 116; 104; 111; 114; 105; 116; 121].
 Definition k_path : bytes := [58; 112; 97; 116; 104].
 Definition k_status : bytes := [58; 115; 116; 97; 116; 117; 115].
+Definition k_protocol : bytes := [58; 112; 114; 111; 116; 111; 99; 111; 108].
 
 (* HeaderMap::into_iter as HeaderIter flattens it *)
 Definition hm_iter (m : hgroups) : fieldl := flat_map (fun e => map (fun v => (fst e, v)) (snd e)) m.
@@ -32,17 +33,20 @@ Definition ref_fields_of_request (q : req_head) : option fieldl :=
             | _, _ => true
             end in
   if negb ok then None else
-  let connect := bytes_eqb (q_method q) s_CONNECT in
+  let is_connect := bytes_eqb (q_method q) s_CONNECT in
+  let proto := if is_connect then q_protocol q else None in
+  let connect := is_connect && match proto with None => true | Some _ => false end in
   Some ((k_method, q_method q) ::
         (if connect then [] else [(k_scheme, match q_scheme q with Some s => s | None => s_https end)]) ++
         match q_authority q with Some a => [(k_authority, a)] | None => [] end ++
         (if connect then [] else [(k_path, match q_path q with Some (c :: p) => c :: p | _ => s_slash end)]) ++
+        match proto with Some x => [(k_protocol, x)] | None => [] end ++
         hm_iter hm).
 
 Record pacc := { pa_method : option bytes; pa_scheme : option bytes; pa_authority : option bytes;
-                 pa_path : option bytes; pa_status : option bytes; pa_map : hgroups }.
+                 pa_path : option bytes; pa_status : option bytes; pa_protocol : option bytes; pa_map : hgroups }.
 Definition pacc0 : pacc :=
-  {| pa_method := None; pa_scheme := None; pa_authority := None; pa_path := None; pa_status := None; pa_map := [] |}.
+  {| pa_method := None; pa_scheme := None; pa_authority := None; pa_path := None; pa_status := None; pa_protocol := None; pa_map := [] |}.
 
 Definition pacc_step (a : option pacc) (f : bytes * bytes) : option pacc :=
   match a with
@@ -53,23 +57,26 @@ Definition pacc_step (a : option pacc) (f : bytes * bytes) : option pacc :=
     | 58 :: _ =>
         if bytes_eqb n k_method then
           Some {| pa_method := Some v; pa_scheme := pa_scheme a; pa_authority := pa_authority a; pa_path := pa_path a;
-                  pa_status := pa_status a; pa_map := pa_map a |}
+                  pa_status := pa_status a; pa_protocol := pa_protocol a; pa_map := pa_map a |}
         else if bytes_eqb n k_scheme then
           Some {| pa_method := pa_method a; pa_scheme := Some v; pa_authority := pa_authority a; pa_path := pa_path a;
-                  pa_status := pa_status a; pa_map := pa_map a |}
+                  pa_status := pa_status a; pa_protocol := pa_protocol a; pa_map := pa_map a |}
         else if bytes_eqb n k_authority then
           Some {| pa_method := pa_method a; pa_scheme := pa_scheme a; pa_authority := Some v; pa_path := pa_path a;
-                  pa_status := pa_status a; pa_map := pa_map a |}
+                  pa_status := pa_status a; pa_protocol := pa_protocol a; pa_map := pa_map a |}
         else if bytes_eqb n k_path then
           Some {| pa_method := pa_method a; pa_scheme := pa_scheme a; pa_authority := pa_authority a; pa_path := Some v;
-                  pa_status := pa_status a; pa_map := pa_map a |}
+                  pa_status := pa_status a; pa_protocol := pa_protocol a; pa_map := pa_map a |}
         else if bytes_eqb n k_status then
           Some {| pa_method := pa_method a; pa_scheme := pa_scheme a; pa_authority := pa_authority a; pa_path := pa_path a;
-                  pa_status := Some v; pa_map := pa_map a |}
+                  pa_status := Some v; pa_protocol := pa_protocol a; pa_map := pa_map a |}
+        else if bytes_eqb n k_protocol then
+          Some {| pa_method := pa_method a; pa_scheme := pa_scheme a; pa_authority := pa_authority a; pa_path := pa_path a;
+                  pa_status := pa_status a; pa_protocol := Some v; pa_map := pa_map a |}
         else None
     | _ =>
         Some {| pa_method := pa_method a; pa_scheme := pa_scheme a; pa_authority := pa_authority a; pa_path := pa_path a;
-                pa_status := pa_status a; pa_map := group_add n v (pa_map a) |}
+                pa_status := pa_status a; pa_protocol := pa_protocol a; pa_map := group_add n v (pa_map a) |}
     end
   end.
 Definition pacc_of (fs : fieldl) : option pacc := fold_left pacc_step fs (Some pacc0).
@@ -88,7 +95,7 @@ Definition ref_request_of_fields (fs : fieldl) : option req_seen :=
     match pa_method a, auth with
     | Some m, Some au =>
         Some {| v_method := m; v_scheme := pa_scheme a; v_authority := Some au; v_path := pa_path a;
-                v_fields := pa_map a |}
+                v_protocol := pa_protocol a; v_fields := pa_map a |}
     | _, _ => None
     end
   end.
